@@ -2,7 +2,7 @@
    nat, positive, N, Z stay as extracted inductives; no Extract Constant /
    Extract Inductive directives of our own. *)
 Require Import Coq.extraction.Extraction Coq.extraction.ExtrOcamlBasic.
-From Gdsl.Model Require Import Base NodeOps.
+From Gdsl.Model Require Import Base NodeOps Search Callback.
 Extraction Language OCaml.
 Set Extraction KeepSingleton.
 Extraction "model.ml"
@@ -12,4 +12,8 @@ Extraction "model.ml"
   NodeOps.is_connected_d NodeOps.is_connected_u
   NodeOps.out_degree NodeOps.in_degree NodeOps.degree_u
   NodeOps.is_root NodeOps.is_leaf NodeOps.is_orphan NodeOps.adj_u
+  Search.search_find Search.search_path Search.order_nodes Search.order_edges Search.edge_loop
+  Search.node_eqb Search.node_cmp Search.path_nodes Search.heap_push Search.heap_pop
+  Callback.mk_cb Callback.cb0
+  Z.leb
   N.eqb N.of_nat N.to_nat Z.eqb Z.compare N.compare.
